@@ -294,7 +294,11 @@ func cmdCheck(args []string) {
 		slow := map[string]bool{}
 		failedBase := map[string]bool{}
 		for _, o := range obs {
-			if o.Res != nil && o.Res.Status == "unsat" && o.Res.TimeS > 8 {
+			limit := 10.0
+			if o.TimeoutS > 20 {
+				limit = float64(o.TimeoutS) / 2
+			}
+			if o.Res != nil && o.Res.Status == "unsat" && o.Res.TimeS > limit {
 				fmt.Printf("not claimed (slow, %.1fs): %s\n", o.Res.TimeS, o.Name)
 				slow[baseName(o.Name)] = true
 			}
